@@ -16,7 +16,7 @@ use refchess::Pos;
 use serde_json::{json, Value};
 use std::time::Duration;
 
-pub const RULE: &str = "Layer A (in-process, model-based): op lists of 1..12 ops over one engine — NewGame, Resume (the position command that was current before the last ucinewgame, sent again, continued by 0..2 plies), SetPos (position command with FEN and move list; small positions, mates and stalemates included), Play(k plies of the same game, or one out-and-back cycle of reversible moves after which the same placement stands without its en-passant right), Search{depth 1..4, budget None | Nodes(k)} where k ranges over 0..2x the node count of the previous completed search (expiry before the first node, inside depth 1, between iterations, inside the last iteration; Nodes(0) is the image of 'movetime 0' / a clock at or below the reserve). A seventh of the cases (and all cases of the part 'twins') open with the twin scenario: a position with a legal en-passant capture or castle is searched, then the same placement without that right is set on the same engine and searched no deeper. Invariant after every Search: the returned move is a reference-legal move of the CURRENT position iff one exists, and none iff there is none. Part 'selfplay' (layer A): a game played out on ONE engine the way a GUI uses it, from endings with a decisive material advantage, mate neighbourhoods and small positions: position (whole game restated), go depth 1..4 (varying from move to move, 15 % under a node budget), the answer is played and the other side's go follows on the same engine; 18 % human-like deviations (a random legal move instead of the answer), 12 % take-backs of one or two plies followed by another search; up to 30 plies or the end of the game; one game in twenty-five on an engine whose tables are kept full by heavy middlegame searches (1.4 M nodes each, ended by a node deadline) before the game and between its moves — positions the engine has proved won or lost inside one search are the roots of later, often shallower, ones. Same invariant after every search. Layer B (black-box): scripts of ucinewgame?, 1..5 rounds of position + go (depth 1..3 pre-screened; movetime in {0,1,3,10,40}; clock sets wtime,btime 0..12000 with increments in any order, on both sides of the 5 s reserve) + isready; between consecutive readyok barriers exactly one line starts with 'bestmove', its move is legal in the position last set, or 0000 iff that position has no legal move. Non-trivial = a search on a position with >=2 legal moves that follows >=1 earlier search in the same engine/process or runs under a budget that expires before the requested depth completes; distinct by (history of ops / script text).";
+pub const RULE: &str = "Layer A (in-process, model-based): op lists of 1..12 ops over one engine — NewGame, Resume (the position command that was current before the last ucinewgame, sent again, continued by 0..2 plies), SetPos (position command with FEN and move list; small positions, mates and stalemates included), Play(k plies of the same game, or one out-and-back cycle of reversible moves after which the same placement stands without its en-passant right), Search{depth 1..4, budget None | Nodes(k)} where k ranges over 0..2x the node count of the previous completed search (expiry before the first node, inside depth 1, between iterations, inside the last iteration; Nodes(0) is the image of 'movetime 0' / a clock at or below the reserve). A seventh of the cases (and all cases of the part 'twins') open with the twin scenario: a position with a legal en-passant capture or castle is searched, then the same placement without that right is set on the same engine and searched no deeper. Invariant after every Search: the returned move is a reference-legal move of the CURRENT position iff one exists, and none iff there is none. Part 'selfplay' (layer A): a game played out on ONE engine the way a GUI uses it, from endings with a decisive material advantage, mate neighbourhoods and small positions: position (whole game restated), go depth 1..4 (varying from move to move, 15 % under a node budget), the answer is played and the other side's go follows on the same engine; 18 % human-like deviations (a random legal move instead of the answer), 12 % take-backs of one or two plies followed by another search; up to 30 plies or the end of the game; one game in twenty-five on an engine whose tables are kept full by heavy middlegame searches (1.4 M nodes each, ended by a node deadline) before the game and between its moves — positions the engine has proved won or lost inside one search are the roots of later, often shallower, ones. Same invariant after every search. Layer B (black-box): scripts of ucinewgame?, 1..5 rounds of position + go (depth 1..3 pre-screened; movetime in {0,1,3,10,40}; clock sets wtime,btime 0..12000 with increments in any order, on both sides of the 5 s reserve) + isready; between consecutive readyok barriers exactly one line starts with 'bestmove', its move is legal in the position last set, or 0000 iff that position has no legal move. Part 'B-game': the real binary plays a game against itself under a real clock (position restated, go with both clocks and increments running down from 0.4..7.5 s on both sides of the reserve, the answer played and charged to the mover's clock, 4..15 plies), same oracle per go. Non-trivial = a search on a position with >=2 legal moves that follows >=1 earlier search in the same engine/process or runs under a budget that expires before the requested depth completes; distinct by (history of ops / script text).";
 
 #[derive(Debug, Clone)]
 enum Op {
@@ -590,6 +590,94 @@ fn part_b(bytes: &[u8], stats: &mut Stats) -> Verdict {
     judge_script(&lines, stats)
 }
 
+/// Layer B, part 'B-game': the real binary plays a game against itself under a real clock, the way
+/// a GUI runs it: position (whole game restated), go with both clocks and increments (clocks run
+/// down from a few seconds, on both sides of the 5 s reserve), the answer is played and charged to
+/// the mover's clock.  Every answer must be exactly one bestmove line with a move legal in the
+/// position last set (0000 only at the end of the game).
+fn part_b_game(bytes: &[u8], stats: &mut Stats) -> Verdict {
+    let mut s = Src::new(bytes);
+    let start = match s.weighted(&[45, 20, 35]) {
+        0 => g_decisive(&mut s),
+        1 => Pos::startpos(),
+        _ => gen::g_small(&mut s).0,
+    };
+    let base = format!("position fen {}", start.fen(0, 1));
+    let mut clocks = [*s.pick(&[400u64, 2_000, 5_200, 6_000, 7_500]), *s.pick(&[400u64, 2_000, 5_200, 6_000, 7_500])];
+    let inc = *s.pick(&[0u64, 0, 20, 50]);
+    let plies = 4 + s.below(12);
+    let mut p = match Proc::spawn() {
+        Ok(p) => p,
+        Err(e) => return Err(Failure::new("harness-no-engine", json!({"error": e}))),
+    };
+    let mut sent: Vec<String> = Vec::new();
+    let mut cur = start.clone();
+    let mut moves: Vec<String> = Vec::new();
+    if s.chance(40) {
+        p.send("ucinewgame");
+        sent.push("ucinewgame".into());
+    }
+    for ply in 0..plies {
+        let mut cmd = base.clone();
+        if !moves.is_empty() {
+            cmd.push_str(" moves ");
+            cmd.push_str(&moves.join(" "));
+        }
+        let go = format!("go wtime {} btime {} winc {} binc {}", clocks[0], clocks[1], inc, inc);
+        p.send(&cmd);
+        p.send(&go);
+        p.send("isready");
+        sent.push(cmd);
+        sent.push(go);
+        sent.push("isready".into());
+        let t0 = std::time::Instant::now();
+        stats.eval();
+        let out = match p.read_until_or_idle("readyok", Duration::from_secs(25), Duration::from_secs(4)) {
+            Ok(l) => l,
+            Err(Wait::Timeout) => return Err(Failure::new("harness-timeout-waiting-for-bestmove", json!({"script": sent, "stdout": p.transcript}))),
+            Err(Wait::Idle) => return Err(Failure::new("go-not-answered-engine-idle", json!({"script": sent, "stdout": p.transcript}))),
+            Err(_) => {
+                let code = p.wait_exit(Duration::from_secs(2));
+                return Err(Failure::new("process-died", json!({"script": sent, "stdout": p.transcript, "exit_code": code})));
+            }
+        };
+        let spent = t0.elapsed().as_millis() as u64;
+        let best: Vec<&String> = out.iter().filter(|l| l.starts_with("bestmove")).collect();
+        let legal: Vec<String> = cur.legal_moves().iter().map(|m| m.uci()).collect();
+        let d = json!({"script": sent, "position": cur.fen4(), "answer_lines": out, "legal_moves": legal.len()});
+        if best.len() != 1 {
+            return Err(Failure::new(if best.is_empty() { "no-bestmove-line" } else { "several-bestmove-lines" }, d));
+        }
+        let mv = best[0].split_whitespace().nth(1).unwrap_or("").to_string();
+        if legal.is_empty() {
+            if mv != "0000" {
+                return Err(Failure::new("move-in-terminal-position", d));
+            }
+            stats.class("B_game_played_to_its_end");
+            break;
+        } else if mv == "0000" {
+            let completed = out.iter().any(|l| l.starts_with("info depth"));
+            return Err(Failure::new(if completed { "bestmove-0000-with-legal-moves" } else { "bestmove-0000-with-legal-moves-no-iteration-completed" }, d));
+        } else if !legal.iter().any(|m| *m == mv) {
+            return Err(Failure::new("illegal-bestmove", d));
+        }
+        stats.class("B_game_searches_under_a_running_clock");
+        if ply >= 1 && legal.len() >= 2 {
+            stats.nontrivial(&sent);
+        }
+        // the clock of the mover runs down by what the move took (never below zero), plus the increment
+        let side = if cur.stm == refchess::Color::W { 0 } else { 1 };
+        clocks[side] = clocks[side].saturating_sub(spent) + inc;
+        let m = cur.find_uci(&mv).unwrap();
+        moves.push(mv);
+        cur = cur.make(m);
+    }
+    p.send("quit");
+    stats.class("B_games");
+    stats.sample(|| json!({"layer": "B-game", "script": sent}));
+    Ok(())
+}
+
 /// Layer B oracle for one script (every go is followed by an isready barrier): the real binary,
 /// exactly one bestmove line per go, legal in the position last set (read from the same command
 /// lines by the reference), 0000 iff that position has no legal move.
@@ -699,6 +787,12 @@ pub fn run(tier: Tier, seed: u64, known: &Known) -> PropRun {
     let (st, fl) = run_part(&part, seed, known, part_b);
     run.stats.merge(st);
     run.failure = fl;
+    if run.failure.is_none() {
+        let part = Part { name: "B-game", cases: tier.pick(64, 1_500), min_len: 24, max_len: 300, max_shrink: 10, threads: threads() };
+        let (st, fl) = run_part(&part, seed, known, part_b_game);
+        run.stats.merge(st);
+        run.failure = fl;
+    }
     run
 }
 
@@ -742,7 +836,7 @@ fn replay_history(hist: &[Value], stats: &mut Stats) -> Verdict {
 }
 
 pub fn replay(part: &str, bytes: &[u8], case: &Value, stats: &mut Stats) -> Verdict {
-    if part != "B" {
+    if part != "B" && part != "B-game" {
         if let Some(h) = case.get("history").and_then(|x| x.as_array()) {
             return replay_history(h, stats);
         }
@@ -754,6 +848,7 @@ pub fn replay(part: &str, bytes: &[u8], case: &Value, stats: &mut Stats) -> Verd
         "twins" => part_twins(bytes, stats),
         "selfplay" => part_selfplay(bytes, stats),
         "B" => part_b(bytes, stats),
+        "B-game" => part_b_game(bytes, stats),
         _ => part_a(bytes, stats),
     }
 }
